@@ -11,6 +11,7 @@ mod deleg;
 mod fmtleg;
 mod fmtspecs;
 mod history;
+mod iosim;
 mod jsonleg;
 mod prng;
 mod serleg;
